@@ -351,6 +351,69 @@ def _near(exp, w):
     return [e for e in exp if e in w][:4]
 
 
+# ----------------------------------------------------------------------------- attribute dressing
+# Attributes WordprocessingML really carries on the elements the Lean renderer writes bare (ECMA-376 part 1, 17.3 / 17.4 /
+# 17.13 / 17.16, MCE part 3, VML).  None of them is text, none of them changes what the source separates: a w:br of ANY
+# type is a break, a run with revision ids is the same run.  Lean: S2T.C02.Ooxml.Docx.fullText_attr_blind (the model
+# walk reads no attribute) - the dressed documents tie that to the real extractor.  A dress maps a wire tag name to ONE
+# attribute set that is put on every element of that name (so a replay is the abstract document + a few attributes).
+_XML_SPACE = "{http://www.w3.org/XML/1998/namespace}space"
+DRESS_VOCAB = {
+    "#wBr": [{"w:type": "page"}, {"w:type": "column"}, {"w:type": "textWrapping"}, {"w:type": "textWrapping", "w:clear": "all"},
+             {"w:clear": "left"}, {"w:type": "page", "w:clear": "none"}],
+    "#wCr": [{"w:type": "page"}],
+    "#wTab": [{"w:val": "left", "w:pos": "720"}, {"w:leader": "dot"}],
+    "#wT": [{_XML_SPACE: "preserve"}, {_XML_SPACE: "default"}],
+    "#wR": [{"w:rsidR": "00A1B2C3"}, {"w:rsidRPr": "00D4E5F6", "w:rsidDel": "00112233"}],
+    "#wP": [{"w:rsidR": "00A1B2C3", "w:rsidRDefault": "00D4E5F6"}, {"w:rsidP": "00778899", "w:rsidRPr": "00D4E5F6"},
+            {"{http://schemas.microsoft.com/office/word/2010/wordml}paraId": "1A2B3C4D"}],
+    "#wTr": [{"w:rsidR": "00A1B2C3", "w:rsidTr": "00D4E5F6"}],
+    "#wTc": [{"w:id": "c1"}],
+    "#wSdt": [{"w:rsidR": "00A1B2C3"}],
+    "#choice": [{"Requires": "wps"}, {"Requires": "wpg"}, {"Requires": "w14"}, {"Requires": "wps wpg"}],
+    "#alt": [{"mc:Ignorable": "w14"}],
+    "#wTxbxContent": [{"w:rsidR": "00A1B2C3"}],
+    "w:hyperlink": [{"r:id": "rId9"}, {"w:history": "1", "w:tooltip": "tip t0"}, {"w:tgtFrame": "_blank", "w:docLocation": "x"}],
+    "w:ins": [{"w:id": "7", "w:author": "Ann", "w:date": "2024-01-01T00:00:00Z"}],
+    "w:del": [{"w:id": "8", "w:author": "Bob", "w:date": "2024-01-02T00:00:00Z"}],
+    "w:delText": [{_XML_SPACE: "preserve"}],
+    "w:footnoteReference": [{"w:customMarkFollows": "1"}],
+    "wp:anchor": [{"distT": "0", "distB": "0", "behindDoc": "1", "simplePos": "0", "allowOverlap": "1"}],
+    "wps:txbx": [{"id": "3"}],
+    "v:shape": [{"id": "tb1", "type": "#_x0000_t202", "style": "position:absolute"}],
+    "v:textbox": [{"style": "mso-fit-shape-to-text:t"}, {"inset": "0,0,0,0"}],
+    "w:sectPr": [{"w:rsidR": "00A1B2C3", "w:rsidSect": "00D4E5F6"}],
+}
+
+
+def gen_dress(rng, p=0.5):
+    """one attribute set for about half of the dressable element names"""
+    return {t: dict(rng.choice(v)) for t, v in DRESS_VOCAB.items() if rng.random() < p}
+
+
+def dress_json(j, dress):
+    """the rendered element (wire format) with the dress put on: existing attributes win"""
+    if not dress:
+        return j
+    have = {k for k, _ in j.get("a", [])}
+    extra = [[k, v] for k, v in dress.get(j["t"], {}).items() if k not in have]
+    return {"t": j["t"], "a": list(j.get("a", [])) + extra, "x": j.get("x", ""), "k": [dress_json(c, dress) for c in j.get("k", [])]}
+
+
+def _dress_used(j, dress):
+    """the entries of the dress that meet an element of the tree"""
+    seen = set()
+
+    def walk(n):
+        if n["t"] in dress:
+            seen.add(n["t"])
+        for c in n.get("k", []):
+            walk(c)
+    for n in j:
+        walk(n)
+    return {t: a for t, a in dress.items() if t in seen}
+
+
 # ----------------------------------------------------------------------------- running the real extractors
 def _real_docx(data: bytes):
     from sharepoint2text.parsing.extractors.ms_modern.docx_extractor import read_docx
@@ -406,7 +469,7 @@ def eval_doc(fmt, doc, extra=None):
     from builders import c02_ooxml_build as B
     extra = extra or {}
     if fmt == "docx":
-        data = B.docx_package([B.to_et(k) for k in extra["xml"]], extra.get("outside"), extra.get("title", ""))
+        data = B.docx_package([B.to_et(dress_json(k, extra.get("dress"))) for k in extra["xml"]], extra.get("outside"), extra.get("title", ""))
         text, err = _safe(_real_docx, data)
         if err:
             return None, ("crash", err)
@@ -771,6 +834,35 @@ def correspondence(ctx):
             report("c02ooxml.docx-oracle", f"{verdict}", {"fmt": "docx", "doc": d})
     ctx.sample({"fmt": "docx", "doc": docs[0], "model": outs[0].get("text")})
 
+    # ---- DOCX dressed: the same rendered documents with attributes WordprocessingML really carries (break types, xml:space,
+    # revision ids, tracked-change ids, Requires, VML styles): by Docx.fullText_attr_blind the model text cannot move; the
+    # model walk is run on the dressed tree as well (op docx_walk) and the real extractor on the dressed package
+    dressed, reqs = [], []
+    for d, o in zip(docs, outs):
+        if "drv_error" in o:
+            continue
+        dress = _dress_used(o["xml"], gen_dress(rng))
+        if not dress:
+            continue
+        kids = [B.to_et(dress_json(k, dress)) for k in o["xml"]]
+        dressed.append((d, o, dress))
+        reqs.append({"op": "c02ooxml.docx_walk", "kids": [B.et_to_json(k) for k in kids]})
+    for (d, o, dress), w in zip(dressed, ctx.drive(reqs)):
+        case = {"fmt": "docx", "doc": d, "dress": dress}
+        ctx.case(("docx-dressed", json.dumps(d), json.dumps(dress, sort_keys=True)), _nontrivial_doc(d))
+        ctx.count("docx/dressed")
+        for t in dress:
+            ctx.count("docx/dressed:" + t)
+        text, verdict = eval_doc("docx", d, {"xml": o["xml"], "dress": dress, "outside": _outside(g, rng), "title": g.tok(HDR)})
+        if w.get("text") != o["text"]:
+            report("c02ooxml.docx-dressed-model", f"the model walk reads an attribute: dressed {w.get('text')!r:.200} bare {o['text']!r:.200}", case)
+        elif text != o["text"]:
+            report("c02ooxml.docx-dressed", f"dress={dress} impl={text!r:.300} model={o['text']!r:.300}", case)
+        elif verdict is not None:
+            report("c02ooxml.docx-dressed-oracle", f"{verdict}", case)
+    if dressed:
+        ctx.sample({"fmt": "docx", "doc": dressed[0][0], "dress": dressed[0][2]})
+
     # ---- DOCX malformed: random element trees through the real walk and the model walk
     from sharepoint2text.parsing.extractors.ms_modern import docx_extractor as dx
     vocab = ["{%s}%s" % (_W, t) for t in _VOCAB_W] + _VOCAB_X
@@ -979,10 +1071,13 @@ def _blk_any(bs, bpred, ipred):
     return False
 
 
-def _mechanism(fmt, kind, doc):
+def _mechanism(fmt, kind, doc, extra=None):
     """key of ONE failing mechanism: the oracle's verdict kind refined by what the (shrunk) failing document
     contains; anything not recognised keeps the generic '<fmt>.<kind>'"""
     no_b, no_i = (lambda b: False), (lambda x: False)
+    if fmt == "docx" and extra and extra.get("dress"):
+        # (the shrinker drops every attribute the failure does not need: what is left is the attribute the walk reads)
+        return f"docx.{kind}.attribute:" + ",".join(sorted(f"{t.lstrip('#')}@{k.split('}')[-1]}" for t, a in extra["dress"].items() for k in a))
     if fmt == "docx":
         if kind == "merged" and _blk_any(doc, no_b, lambda x: x[0] == "box"):
             return "docx.textbox-paragraphs-fused"
@@ -1019,8 +1114,9 @@ def _check_doc(ctx, fmt, doc, extra=None, rendered=None):
     if v is None:
         return None
     shown = res if isinstance(res, str) else (res[1][:1] if res else None)
-    viol = Violation(_mechanism(fmt, v[0], doc), f"{fmt}: {v[1]} — output {shown!r:.200}",
-                     {"fmt": fmt, "doc": doc, **{k: extra[k] for k in ("enc", "bare", "tight") if extra and k in extra}})
+    dressed = f" [elements dressed with the attributes {extra['dress']}]" if extra and extra.get("dress") else ""
+    viol = Violation(_mechanism(fmt, v[0], doc, extra), f"{fmt}{dressed}: {v[1]} — output {shown!r:.200}",
+                     {"fmt": fmt, "doc": doc, **{k: extra[k] for k in ("enc", "bare", "tight", "dress") if extra and k in extra}})
     viol.kind = f"{fmt}.{v[0]}"  # the oracle's verdict alone (what shrinking preserves)
     return viol
 
@@ -1107,6 +1203,27 @@ def _shrink(ctx, fmt, doc, kind, extra=None):
     return best
 
 
+def _shrink_dress(ctx, fmt, doc, kind, extra):
+    """drop element names, then single attributes, while the verdict stays"""
+    dress = {t: dict(a) for t, a in extra["dress"].items()}
+
+    def fails(dr):
+        v = _check_doc(ctx, fmt, doc, dict(extra, dress=dr))
+        return v is not None and v.kind == kind
+
+    for t in sorted(dress):
+        cand = {u: a for u, a in dress.items() if u != t}
+        if cand and fails(cand):
+            dress = cand
+    for t in sorted(dress):
+        for k in sorted(dress[t]):
+            if len(dress[t]) > 1:
+                cand = {u: ({x: y for x, y in a.items() if x != k} if u == t else a) for u, a in dress.items()}
+                if fails(cand):
+                    dress = cand
+    return dress
+
+
 # witnesses of the repaired defects of this part (known_findings.jsonl, status "fixed"): re-run on the real code whenever
 # something broke, so that every one of these mechanisms that is back gets its own line with its own concrete input
 REGRESSION = [
@@ -1130,7 +1247,15 @@ def search(ctx, broken):
         v = _check_doc(ctx, fmt, doc, extra)
         if v is None:
             return None
+        if extra and extra.get("dress"):
+            # a failure that does not need the attributes is a failure of the bare document
+            bare = {k: x for k, x in extra.items() if k != "dress"} or None
+            vb = _check_doc(ctx, fmt, doc, bare)
+            if vb is not None and vb.kind == v.kind:
+                return shrunk(fmt, doc, bare)
         small = _shrink(ctx, fmt, doc, v.kind, extra)
+        if extra and extra.get("dress"):
+            extra = dict(extra, dress=_shrink_dress(ctx, fmt, small, v.kind, extra))
         return _check_doc(ctx, fmt, small, extra) or v
 
     # 1. the disagreeing cases themselves (each shrunk, then keyed by its mechanism)
@@ -1141,7 +1266,7 @@ def search(ctx, broken):
         if fmt in ("docx", "html", "mhtml", "epub") and "doc" in c:
             if budget <= 0:
                 continue
-            extra = {k: c[k] for k in ("enc", "bare", "tight") if k in c} or None
+            extra = {k: c[k] for k in ("enc", "bare", "tight", "dress") if k in c} or None
             v = _check_doc(ctx, fmt, c["doc"], extra)
             if v is not None:
                 budget -= 1
@@ -1160,7 +1285,8 @@ def search(ctx, broken):
     g = Gen(ctx.rng)
     for _ in range(ctx.n(150, 1500)):
         d = g.doc()
-        for fmt, extra in (("docx", None), ("html", None), ("html", {"bare": True, "tight": True}), ("html", {"tight": True}),
+        for fmt, extra in (("docx", None), ("docx", {"dress": gen_dress(ctx.rng, 0.7)}), ("html", None),
+                           ("html", {"bare": True, "tight": True}), ("html", {"tight": True}),
                            ("epub", None), ("epub", {"bare": True, "tight": True})):
             v = _check_doc(ctx, fmt, d, extra)
             if v is not None and v.key not in seen:
@@ -1227,7 +1353,7 @@ def replay(ctx, payload):
     rep = payload.get("replay", {})
     fmt = rep.get("fmt")
     if fmt in ("docx", "html", "mhtml", "epub") and "doc" in rep:
-        v = _check_doc(ctx, fmt, rep["doc"], {k: rep[k] for k in ("enc", "bare", "tight") if k in rep} or None)
+        v = _check_doc(ctx, fmt, rep["doc"], {k: rep[k] for k in ("enc", "bare", "tight", "dress") if k in rep} or None)
     elif fmt == "pptx":
         v = _deck_violation(ctx, rep["deck"])
     elif fmt == "xlsx":
